@@ -35,7 +35,7 @@ BAD_FRAMES = ["XYZ", "EME2001", "itrf", "J2000", "QSW"]
 MUTATORS = ["set_form", "set_frame", "set_coord", "set_meta", "mutate_meta", "append_man", "remove_man",
             "set_mans", "replace_cov_entry", "attach_cov", "del_cov", "set_cov_frame"]
 MAKERS = ["copy", "copy_form", "copy_frame", "copy_both", "copy_same", "pickle", "as_orbit", "as_statevector",
-          "cov_copy"]
+          "cov_copy", "clone"]
 COV_FRAMES = FRAMES + ["QSW", "TNW", "QSW", "TNW"]
 FAILING = ["bad_form", "bad_frame", "hill", "wrong_param"]
 
@@ -121,6 +121,8 @@ def _op(d, kind):
         op["frame"] = d.pick(*COV_FRAMES)
     if kind == "cov_copy":
         op["frame"] = d.pick(None, *COV_FRAMES)
+    if kind == "clone":
+        op["how"] = d.pick("copy", "deepcopy", "pickle")
     if kind == "as_orbit":
         op["prop"] = d.pick("Kepler", "J2", "Kepler()", "J2()")
     if kind == "bad_form":
